@@ -9,7 +9,6 @@ import (
 
 	"github.com/google/uuid"
 
-	"github.com/Tnze/go-mc/bot"
 	"github.com/Tnze/go-mc/chat"
 	"github.com/Tnze/go-mc/nbt"
 	mcnet "github.com/Tnze/go-mc/net"
@@ -374,6 +373,10 @@ func (s *connState) fail(format string, a ...any) {
 
 func scenarioB(c *harness.Ctx) {
 	tp := c.T
+	if warpConn == nil {
+		pWarpUnavailable.Hit()
+		return
+	}
 	linked := tp.Bool(1, 2)
 	threshold := gen.Threshold(tp, false)
 	mk := func(tag, n int) []pk.Packet {
@@ -438,7 +441,7 @@ func scenarioB(c *harness.Ctx) {
 		w.Go("main", func() {
 			mc := mcnet.WrapConn(link.A)
 			mc.SetThreshold(threshold)
-			wc := bot.VerifWarpConn(mc, qr, qw)
+			wc := warpConn(mc, qr, qw)
 			var swg simsync.WaitGroup
 			swg.Add(1)
 			w.Go("sender", func() {
@@ -648,3 +651,5 @@ func scenarioL(c *harness.Ctx) {
 }
 
 var pCacheCaseFold = simrt.NewProbe("typecache.foreign.document.with.case-variant.keys")
+
+var pWarpUnavailable = simrt.NewProbe("botconn.warpConn.entry.point.not.available(scenario.not.run)")
